@@ -156,4 +156,90 @@ def served (c : Client) (raw : List Series) : List Series :=
 def selects (ms : List Matcher) (mint maxt : Int) (s : Series) : Bool :=
   matchAll ms s.lbls && s.ts.any (fun t => mint ≤ t && t ≤ maxt)
 
+/-! ### TSDB selector (pkg/store/tsdb_selector.go) and its use in `matchingStores` / `Series`
+
+  `relabel.Process` is third-party: the keep/drop decision per label set is an input (`keep`). -/
+
+structure Selector where
+  isNil : Bool                 -- `relabelConfig == nil` (the default selector)
+  keep : Labels → Bool         -- `relabel.Process(labelSet, cfg...)` keeps the label set
+
+/-- `TSDBSelector.MatchLabelSets`: does the store take part, and which of its label sets are
+    matched ([] for "nil": no narrowing information) -/
+def matchLabelSets (sel : Selector) (sets : List Labels) : Bool × List Labels :=
+  if sel.isNil || sets.isEmpty then (true, [])
+  else
+    let m := sets.filter sel.keep
+    (!m.isEmpty, m)
+
+/-- label names of the given label sets, each once, in order of first appearance -/
+def labelNames (sets : List Labels) : List String :=
+  (sets.flatMap (fun ls => ls.map (·.1))).eraseDups
+
+def insertStr (x : String) : List String → List String
+  | [] => [x]
+  | y :: r => if x < y then x :: y :: r else if x = y then y :: r else y :: insertStr x r
+
+/-- sorted, duplicate free -/
+def sortDedup (xs : List String) : List String := xs.foldr insertStr []
+
+/-- the values of label `n` in the label sets that have it -/
+def valuesOf (sets : List Labels) (n : String) : List String :=
+  sets.filterMap (fun ls => if has ls n then some (get ls n) else none)
+
+/-- some label set does not have label `n` -/
+def someLacks (sets : List Labels) (n : String) : Bool := sets.any (fun ls => !(has ls n))
+
+/-- `regexp.QuoteMeta` -/
+def quoteMeta (s : String) : String :=
+  String.ofList (s.toList.flatMap fun c =>
+    if c = '\\' || c = '.' || c = '+' || c = '*' || c = '?' || c = '(' || c = ')' || c = '|' ||
+       c = '[' || c = ']' || c = '{' || c = '}' || c = '^' || c = '$' then ['\\', c] else [c])
+
+/-- one matcher of `MatchersForLabelSets`: `n =~ "v1|v2|…"`, with `^$` among the alternatives when a
+    label set lacks `n`; the values are quoted (`regexp.QuoteMeta`, since the repair).  The
+    acceptance predicate is what that regular expression means: one of the values, or empty when
+    `^$` is listed (regular-expression semantics are third party; the Go oracle evaluates the real
+    forwarded matchers). -/
+def selMatcher (sets : List Labels) (n : String) : Matcher :=
+  let vals := valuesOf sets n
+  let lacks := someLacks sets n
+  { ty := .re, name := n,
+    value := "|".intercalate (sortDedup (if lacks then "^$" :: vals.map quoteMeta else vals.map quoteMeta)),
+    acc := fun x => vals.contains x || (lacks && x = "") }
+
+/-- `MatchersForLabelSets` (the Go code iterates a map: the order of the matchers is unspecified;
+    here: order of first appearance of the names) -/
+def matchersForLabelSets (sets : List Labels) : List Matcher :=
+  (labelNames sets).map (selMatcher sets)
+
+/-- `storesForTSDBSelector` + `matchingStores`: indices of the stores that get the request and the
+    union of their matched label sets -/
+def selStores (sel : Selector) (dbg : List (List Matcher)) (mint maxt : Int) (ms : List Matcher) :
+    Nat → List Client → List Nat × List Labels
+  | _, [] => ([], [])
+  | i, c :: r =>
+    let (m, kept) := matchLabelSets sel c.extSets
+    let (idx, u) := selStores sel dbg mint maxt ms (i + 1) r
+    if m && decide (storeMatches dbg c mint maxt ms = .ok) then (i :: idx, kept ++ u) else (idx, u)
+
+inductive DecisionSel where
+  | nomatch
+  | invalid
+  | unavailable
+  | queried (stores : List Nat) (kept : List Matcher) (extra : List Matcher)
+
+/-- head of `ProxyStore.Series` with a TSDB selector: the stores that get the request, the request's
+    own matchers that are forwarded (`kept`) and the matchers added for the selected label sets -/
+def seriesDecisionSel (sel : Selector) (selLabels : Labels) (abort : Bool) (dbg : List (List Matcher))
+    (cs : List Client) (mint maxt : Int) (ms : List Matcher) : DecisionSel :=
+  match matchesExternalLabels ms selLabels with
+  | none => .nomatch
+  | some kept =>
+    if kept.isEmpty then .invalid
+    else if cs.isEmpty && abort then .unavailable
+    else
+      let (idx, union) := selStores sel dbg mint maxt kept 0 cs
+      .queried idx kept (matchersForLabelSets union)
+
 end Thanos.Prune
